@@ -247,7 +247,16 @@ class AirTouchSocket(Generic[comms.Hdr]):
                 del self._message_queue[i]
                 self._log_dropped_message(queued_entry, "expired")
 
-        if len(self._message_queue) >= MAX_MESSAGE_QUEUE_SIZE:
+        # The limit applies to messages held while the link is down. Once
+        # connected the queue is only passed through on the way to the wire:
+        # messages held over an outage are flushed when the first message is
+        # sent on the new connection, which is the status refresh requested by
+        # the connection subscribers - that request must not be refused because
+        # of the messages it is about to flush.
+        if (
+            not self.is_connected
+            and len(self._message_queue) >= MAX_MESSAGE_QUEUE_SIZE
+        ):
             raise QueueOverflowError
 
         self._message_queue.append(entry)
